@@ -4,7 +4,7 @@
 From Coq Require Import List NArith Bool Arith Sorted.
 From Coq Require Import Strings.Byte.
 Require Import BS.Bytes BS.Common BS.Api BS.Layout BS.Format BS.FormatFacts BS.Spec BS.SpecStep BS.Sections.
-Require Import BS.FS BS.FSFacts BS.Meta BS.MetaFacts BS.Header BS.Reader BS.ReaderFacts BS.Index BS.Data BS.DataFacts BS.Seek BS.SeekFacts BS.Series BS.SeriesFacts BS.ReadAllFacts.
+Require Import BS.FS BS.FSFacts BS.Meta BS.MetaFacts BS.Header BS.Reader BS.ReaderFacts BS.Index BS.Data BS.DataFacts BS.Seek BS.SeekFacts BS.Series BS.SeriesFacts BS.ReadAllFacts BS.CacheFacts.
 Import ListNotations.
 
 (* (I) the line estimate of a cache level never panics (saturating subtraction after the fix), except in the
@@ -14,5 +14,31 @@ Theorem C11_estimate_total : forall r p dl,
   exists mx mn, estimate_lines r p dl = Ok (mx, mn).
 Proof. exact estimate_lines_total. Qed.
 Print Assumptions C11_estimate_total.
-(* whichever level the loop picks, the read on that level is props/C10.v applied to that level's series;
-   partial: the caches' own invariant (RepC) and the level loop are not proved yet. *)
+(* (I refines S) under the invariant of a series with cache levels (RepS, props/C08.v), for every range and every n >= 1:
+   whichever level the estimate loop settles on, read_n returns the uniform bucket means (bucket size b >= 1, at most 2n
+   samples) of the lines of THAT level inside the range - the source lines, or the bucket means a cache holds - or nothing
+   when that level has no line in the range. This is Layer S's read_n_allowed. *)
+Theorem C11_read_through_levels : forall p fs s hdr ihdr l cs n lo hi d,
+  RepS fs s p hdr ihdr l cs -> (1 <= n)%N ->
+  sorted_lens (s_down s) = Ok true -> pick_level (s_data s) (s_down s) n lo hi = Ok d ->
+  exists lev, In lev (levels p l cs)
+    /\ ((exists b, b >= 1 /\ read_n s n lo hi fs = (fs, Ok (resample p b (select lo hi lev)))
+                   /\ (len (resample p b (select lo hi lev)) <= 2 * n)%N)
+        \/ (select lo hi lev = [] /\ read_n s n lo hi fs = (fs, Err ERange))).
+Proof. exact read_n_levels. Qed.
+Print Assumptions C11_read_through_levels.
+
+(* the order check at the start of read_n (after the fix D17: line counts, not byte lengths) passes whenever the bucket
+   sizes were configured in ascending order *)
+Theorem C11_order_check : forall p fs l down cs, Forall2 (cache_ok p fs l) down cs -> StronglySorted le (map fst cs) ->
+  sorted_lens down = Ok true.
+Proof. exact sorted_lens_ok. Qed.
+Print Assumptions C11_order_check.
+
+(* the loop only ever settles on the source or one of the configured levels *)
+Theorem C11_level_is_configured : forall (t:list dsample) cur n lo hi d,
+  pick_level cur t n lo hi = Ok d -> d = cur \/ In d (map ds_data t).
+Proof. exact pick_level_mem. Qed.
+Print Assumptions C11_level_is_configured.
+(* partial: that the estimate loop itself never panics (pick_level returns Ok) is proved only for the arithmetic
+   (C11_estimate_total); that its unreachable!() arm is not reached under RepS is not proved. The state after reopen: C09. *)
